@@ -338,16 +338,51 @@ func genVMReset() string {
 	if vs.deferred != nil {
 		collectRW(vs.deferred, vs.recv, vs.fields, vs.methods, rwEpi)
 	}
+	// the helper methods of *VM: the six the loop has always used plus every other method of *VM (declared in
+	// vm.go) that the loop, the epilogue or a helper calls — found by a work list, so that extracting a piece
+	// of the loop into a new method (`vm.popArgs`, …) is analysed like the code it replaces instead of refused
 	helperNames := []string{"push", "pop", "current", "arg", "constant", "Scope"}
 	helperRW := map[string]*rwSet{}
-	for _, h := range helperNames {
-		fd := funcDecl(vs.file, "*VM", h)
+	analyse := func(h string, where string) {
+		fd := optFuncDeclRecv(vs.file, "*VM", h)
+		if fd == nil {
+			refuse(vs.run.Pos(), "%s calls (*VM).%s, which is not declared in vm/vm.go", where, h)
+		}
 		if len(fd.Recv.List[0].Names) != 1 {
 			refuse(fd.Pos(), "(*VM).%s: unnamed receiver", h)
+		}
+		if fd.Body == nil {
+			refuse(fd.Pos(), "(*VM).%s: no body", h)
 		}
 		rw := newRW()
 		collectRW(fd.Body, fd.Recv.List[0].Names[0].Name, vs.fields, vs.methods, rw)
 		helperRW[h] = rw
+	}
+	for _, h := range helperNames {
+		analyse(h, "the dispatch loop")
+	}
+	var work []string
+	enqueue := func(rw *rwSet) {
+		for _, m := range vmSortedKeys(rw.calls) {
+			if helperRW[m] == nil && m != "Run" {
+				work = append(work, m)
+			}
+		}
+	}
+	enqueue(rwLoop)
+	enqueue(rwEpi)
+	for _, h := range helperNames {
+		enqueue(helperRW[h])
+	}
+	for len(work) > 0 {
+		m := work[0]
+		work = work[1:]
+		if helperRW[m] != nil {
+			continue
+		}
+		analyse(m, "the dispatch loop (or a helper)")
+		helperNames = append(helperNames, m)
+		enqueue(helperRW[m])
 	}
 	// methods called from the loop / epilogue must be among the analysed helpers
 	check := func(rw *rwSet, where string) {
@@ -741,4 +776,18 @@ func genBudget() string {
 func init() {
 	register("VMReset", genVMReset)
 	register("Budget", genBudget)
+}
+
+// optFuncDeclRecv returns the declaration of method name with receiver type recv in f, or nil.
+func optFuncDeclRecv(f *ast.File, recv, name string) *ast.FuncDecl {
+	for _, d := range f.Decls {
+		fd, ok := d.(*ast.FuncDecl)
+		if !ok || fd.Name.Name != name || fd.Recv == nil || len(fd.Recv.List) != 1 {
+			continue
+		}
+		if exprStr(fd.Recv.List[0].Type) == recv {
+			return fd
+		}
+	}
+	return nil
 }
